@@ -196,8 +196,10 @@ def check_model(chk: harness.Check, name: str, text: str, rng, n_instances: int)
 
 
 def worker(args) -> Dict[str, Any]:
-    argv, shard, n_shards, n_models, n_instances = args
+    argv, shard, n_shards, n_models, n_instances = args[:-1]
+    mins = args[-1]
     chk = harness.Check("C29", "exploration", RULE, argv)
+    chk.set_worker_minimums(mins, n_shards)
     budget = chk.wall_budget(150, 900)
     models: List[Tuple[str, str]] = []
     if shard == 0:
@@ -210,7 +212,7 @@ def worker(args) -> Dict[str, Any]:
         m = mmgen.generate(chk.rng("model", i), profile)
         models.append((f"mmg/{chk.seed}/{i}", m.text))
     for idx, (name, text) in enumerate(models):
-        if chk.elapsed() > budget:
+        if chk.should_stop(budget):
             chk.count("models_skipped_for_budget", len(models) - idx)
             break
         check_model(chk, name, text, chk.rng("inst", name), n_instances)
@@ -222,16 +224,20 @@ def main(argv) -> int:
     n_models = chk.pick(48, 800)
     n_instances = chk.pick(25, 150)
     n_shards = 12
+    mins = {
+        "descend_compared": chk.pick(1000, 10000),
+        "dispatches_checked": chk.pick(4000, 30000),
+        "over_or_empty_checked": chk.pick(100, 1000),
+        "or_default_checked": chk.pick(20, 200),
+    }
     with concurrent.futures.ProcessPoolExecutor(max_workers=n_shards) as pool:
-        jobs = [pool.submit(worker, (list(argv), s, n_shards, n_models, n_instances)) for s in range(n_shards)]
+        jobs = [pool.submit(worker, (list(argv), s, n_shards, n_models, n_instances, mins)) for s in range(n_shards)]
         for job in jobs:
             try:
                 chk.merge(job.result())
             except Exception as err:
                 chk.harness_error(f"worker failed: {err!r}")
-    chk.require_min("descend_compared", chk.pick(1000, 10000))
-    chk.require_min("dispatches_checked", chk.pick(4000, 30000))
-    chk.require_min("over_or_empty_checked", chk.pick(100, 1000))
-    chk.require_min("or_default_checked", chk.pick(20, 200))
     chk.assume("X_or_default methods are implementation-specific: the snippet is the reference body written in the meta-model, renamed with the repo's naming functions")
+    for counter_name, minimum in mins.items():
+        chk.require_min(counter_name, minimum)
     return chk.finish()
